@@ -244,4 +244,10 @@ func init() {
 	fire("C11", "unexpanded-tail-copied-as-typed", "transform/variants/variants.go", `(?s)\tfor _, s := range strings\.ToUpper\(seq\) \{\n(.*?)\tcartesianProducts := cartRune\(seqVariantList\.\.\.\)\n\tfor _, product := range cartesianProducts \{\n\t\tseqVariants = append\(seqVariants, string\(product\)\)\n`,
 		"\tupperSeq := strings.ToUpper(seq)\n\tfor _, s := range upperSeq {\n${1}\tsharedFrom := strings.LastIndexAny(upperSeq, \"RYMKSWHBVDN\") + 1\n\tsharedSuffix := seq[sharedFrom:]\n\tcartesianProducts := cartRune(seqVariantList[:sharedFrom]...)\n\tfor _, product := range cartesianProducts {\n\t\tseqVariants = append(seqVariants, string(product)+sharedSuffix)\n", "SHAPE/DEPEND")
 	fire("C17", "window-moved-once-per-ban", pm, `\t\t\tfor strings\.Contains\(debruijn\[start:end\], bannedSequence\) \{\n`, "\t\t\tif strings.Contains(debruijn[start:end], bannedSequence) {\n", "RETEST/shift after strings.Contains")
+	remembered := func(keyFields, keyValues string) string {
+		return "\"strings\"\n\t\"sync\"\n${1}type meltingConditions struct {\n\tsequence string\n\t" + keyFields + " float64\n}\n\nvar santaLuciaResults sync.Map\n\nfunc SantaLucia(sequence string, primerConcentration, saltConcentration, magnesiumConcentration float64) (meltingTemp, dH, dS float64) {\n\tconditions := meltingConditions{sequence, " + keyValues + "}\n\tif result, found := santaLuciaResults.Load(conditions); found {\n\t\tvalues := result.([3]float64)\n\t\treturn values[0], values[1], values[2]\n\t}\n\tdefer func() { santaLuciaResults.Store(conditions, [3]float64{meltingTemp, dH, dS}) }()\n"
+	}
+	slHead := `(?s)"strings"\n(.*?)func SantaLucia\(sequence string, primerConcentration, saltConcentration, magnesiumConcentration float64\) \(meltingTemp, dH, dS float64\) \{\n`
+	fire("C19", "results-remembered-without-the-magnesium", pm, slHead, remembered("primerConcentration, saltConcentration", "primerConcentration, saltConcentration"), "STATE/memo-key")
+	silent("C19", "results-remembered-under-every-argument", pm, slHead, remembered("primerConcentration, saltConcentration, magnesiumConcentration", "primerConcentration, saltConcentration, magnesiumConcentration"))
 }
